@@ -195,7 +195,21 @@ def quantified_partial(rng, nvars):
     """Quantifiers whose bodies are undefined, or need the string matches, for SOME of the elements only: what an
     undefined body counts for (false) and how decided / pending iterations are counted against N."""
     k = rng.choice(["all", "all", "any", "none", "expr", "expr", "pct"])
-    shape = rng.below(3)
+    shape = rng.below(5)
+    if shape >= 3:
+        # N >= 2 iterations over integers whose body needs the string matches from the FIRST iteration on: the
+        # evaluation before the scan must leave every such iteration pending (and not stop counting at the first)
+        lo = rng.choice([0, 0, 1])
+        n = rng.choice([2, 3, 4, 5])
+        v = rng.below(nvars)
+        body = rng.choice([("bin", "ge", ("count", v), ("int", 0)), ("bin", "ge", ("count", v), ("bound", 0)),
+                           ("un", "not", ("varat", v, ("bin", "add", ("bound", 0), ("int", 1000)))),
+                           ("or", [("var", v), ("bin", "ge", ("bound", 0), ("int", lo))]),
+                           ("varat", v, ("bound", 0)), ("defined", ("count", v))])
+        se = ("int", rng.choice([2, 2, n, max(2, n - 1)]))
+        if shape == 3:
+            return ("forrange", "expr", se, ("int", lo), ("int", lo + n - 1), body)
+        return ("forlist", "expr", se, [("int", lo + i) for i in range(n)], body)
     if shape == 0:
         # over a set of strings: bodies undefined for the strings without (enough) matches
         vs = sorted(set(rng.below(nvars) for _ in range(rng.range(2, 4))))
@@ -205,7 +219,7 @@ def quantified_partial(rng, nvars):
                            ("varat", None, ("offset", None, ("int", 1))),
                            ("bin", "eq", ("readint", "uint8", ("offset", None, ("int", 1))), ("int", rng.choice([97, 122, 0])))])
         n = len(vs)
-        se = ("int", rng.choice([1, 2, n, n - 1 if n > 1 else 1])) if k == "expr" else (("int", rng.choice([50, 100])) if k == "pct" else None)
+        se = ("int", rng.choice([1, 2, n, n - 1 if n > 1 else 1])) if k == "expr" else (("int", rng.choice([50, 100, n])) if k == "pct" else None)
         return ("for", k, se, vs, body)
     lo = rng.choice([0, 0, 1, 2])
     hi = lo + rng.choice([1, 1, 2, 3])
@@ -230,7 +244,7 @@ def wildcard_sets(rng):
     vs = rng.choice([[0, 1], [2, 3], [0, 1, 4], [0, 1, 2, 3], [2, 3, 4], [0, 1, 2, 3, 4], [4], [0, 1, 3]])
     k = rng.choice(["all", "none", "expr", "expr", "pct", "any"])
     n = len(vs)
-    se = ("int", rng.choice([n, n, max(1, n - 1), n + 1])) if k == "expr" else (("int", 100) if k == "pct" else None)
+    se = ("int", rng.choice([n, n, max(1, n - 1), n + 1])) if k == "expr" else (("int", rng.choice([100, n])) if k == "pct" else None)
     body = rng.choice([None, None, ("bin", "ge", ("count", None), ("int", rng.choice([1, 2]))),
                        ("un", "not", ("var", None)), ("varin", None, ("int", 0), ("filesize",))])
     c = ("of", k, se, vs) if body is None else ("for", k, se, vs, body)
@@ -280,7 +294,7 @@ def of_at_in(rng, mem):
     pos = max(0, pos)
     vs = sorted(set(rng.below(nvars) for _ in range(rng.range(1, nvars + 1)))) if rng.chance(2, 3) else list(range(nvars))
     k = rng.choice(["any", "all", "none", "expr", "expr", "pct"])
-    se = ("int", rng.choice([1, 2, 2, 3, len(vs)])) if k == "expr" else (("int", rng.choice([50, 100])) if k == "pct" else None)
+    se = ("int", rng.choice([1, 2, 2, 3, len(vs)])) if k == "expr" else (("int", rng.choice([50, 100, len(vs), len(vs)])) if k == "pct" else None)
     if k == "pct" and not cond.pct_exact(se[1], len(vs)):
         k, se = "any", None
     if rng.chance(1, 2):
